@@ -18,6 +18,38 @@ from .common import CASES, COQ, NCPU, sh
 SHARD = 300
 
 
+class CaseTimeout(BaseException):
+    """raised by case_limit (BaseException: not swallowed by the `except Exception` around the real call)"""
+
+
+class case_limit:
+    """wall-clock limit around ONE call of the real code inside a family (junk inputs can send the real
+    pipeline into very long or endless loops; such a case is skipped, not compared). Re-arms the family deadline
+    of vlib/runner.py, which uses the same timer."""
+
+    def __init__(self, seconds):
+        self.seconds = seconds
+
+    def _raise(self, *_):
+        raise CaseTimeout()
+
+    def __enter__(self):
+        import signal
+        self.old = signal.signal(signal.SIGALRM, self._raise)
+        self.t0 = time.time()
+        self.outer = signal.setitimer(signal.ITIMER_REAL, self.seconds)
+        return self
+
+    def __exit__(self, *exc):
+        import signal
+        signal.setitimer(signal.ITIMER_REAL, 0)
+        signal.signal(signal.SIGALRM, self.old)
+        rem, itv = self.outer
+        if rem > 0:
+            signal.setitimer(signal.ITIMER_REAL, max(0.05, rem - (time.time() - self.t0)), itv)
+        return False
+
+
 class Case:
     def __init__(self, expr, desc, nontrivial=True, key=None):
         self.expr = expr
